@@ -40,6 +40,7 @@ type pbLayer struct {
 type pbCase struct {
 	segs   []string
 	name   string
+	sep    string     // PathSep the configurations are created with (sixth wave: not always ".")
 	layers []*pbLayer // in lookup order
 	op     string     // ref, splice, default, alt, err, computed
 }
@@ -50,7 +51,6 @@ func genPathBlock(r *rand.Rand) *pbCase {
 	for i, n := 0, 2+r.Intn(3); i < n; i++ {
 		c.segs = append(c.segs, pool[i][r.Intn(len(pool[i]))])
 	}
-	c.name = strings.Join(c.segs, ".")
 	nenv, nres := r.Intn(3), r.Intn(3)
 	c.layers = append(c.layers, &pbLayer{kind: "tree", label: "tree"})
 	for i := nenv - 1; i >= 0; i-- {
@@ -82,8 +82,14 @@ func genPathBlock(r *rand.Rand) *pbCase {
 		}
 	}
 	c.op = []string{"ref", "ref", "splice", "default", "alt", "err", "computed"}[r.Intn(7)]
+	// sixth wave: the separator the configurations are created with
+	c.sep = []string{".", ".", "/", "|"}[r.Intn(4)]
+	c.name = strings.Join(c.segs, c.sep)
 	return c
 }
+
+// base: the options the configurations are created (and first read) with.
+func (c *pbCase) base() []ucfg.Option { return []ucfg.Option{ucfg.PathSep(c.sep), ucfg.VarExp} }
 
 func (c *pbCase) text() string {
 	switch c.op {
@@ -107,7 +113,7 @@ func (l *pbLayer) data(c *pbCase) map[string]interface{} {
 		m[c.name] = l.label + "V"
 	}
 	if l.block > 0 {
-		m[strings.Join(c.segs[:l.block], ".")] = l.blockV
+		m[strings.Join(c.segs[:l.block], c.sep)] = l.blockV
 	}
 	return m
 }
@@ -126,11 +132,11 @@ func (c *pbCase) describe() string {
 			s += c.name + "=" + l.label + "V"
 		}
 		if l.block > 0 {
-			s += strings.Join(c.segs[:l.block], ".") + "=" + l.blockAs
+			s += strings.Join(c.segs[:l.block], c.sep) + "=" + l.blockAs
 		}
 		parts = append(parts, s+"}")
 	}
-	return fmt.Sprintf("lookup: t=%q (nm=%q) layers in lookup order: %s", c.text(), c.name, strings.Join(parts, " "))
+	return fmt.Sprintf("lookup: t=%q (nm=%q) created with PathSep(%q) layers in lookup order: %s", c.text(), c.name, c.sep, strings.Join(parts, " "))
 }
 
 func runPathBlock(res *harness.R, r *rand.Rand, idx int, verbose bool) {
@@ -140,12 +146,13 @@ func runPathBlock(res *harness.R, r *rand.Rand, idx int, verbose bool) {
 	tree["t"] = c.text()
 	tree["nm"] = c.name
 	tree["prim"] = 1
-	opts := append([]ucfg.Option{}, vx.BaseOpts...)
+	base := c.base()
+	opts := append([]ucfg.Option{}, base...)
 	var cfg *ucfg.Config
 	var err error
 	calls := map[string]int{}
 	if p, pv, where := harness.Safe(func() {
-		if cfg, err = ucfg.NewFrom(tree, vx.BaseOpts...); err != nil {
+		if cfg, err = ucfg.NewFrom(tree, base...); err != nil {
 			return
 		}
 		// options in the order added: oldest first
@@ -160,7 +167,7 @@ func runPathBlock(res *harness.R, r *rand.Rand, idx int, verbose bool) {
 			case "zero":
 				e = &ucfg.Config{}
 			default:
-				if e, err = ucfg.NewFrom(l.data(c), vx.BaseOpts...); err != nil {
+				if e, err = ucfg.NewFrom(l.data(c), base...); err != nil {
 					return
 				}
 			}
@@ -299,30 +306,65 @@ func runPathBlock(res *harness.R, r *rand.Rand, idx int, verbose bool) {
 		}
 	}
 
-	// --- monitors only ---
-	// (1) the name computed by ${${nm}} is split at the separator of the READ
-	// call: observed, not judged (the statement does not say whose options)
-	if c.op == "computed" || c.op == "ref" {
-		for _, alt := range []struct {
-			n    string
-			opts []ucfg.Option
-		}{{"no-pathsep", []ucfg.Option{ucfg.VarExp}}, {"pathsep-slash", []ucfg.Option{ucfg.VarExp, ucfg.PathSep("/")}}} {
-			ro := append(append([]ucfg.Option{}, alt.opts...), opts[len(vx.BaseOpts):]...)
-			var s string
-			var rerr error
-			if p, _, _ := harness.Safe(func() { s, rerr = cfg.String("t", -1, ro...) }); p {
-				res.Violate("panic", "panic reading t with %s; %s", alt.n, desc)
-				return
-			}
-			res.Eval(1)
+	// --- sixth wave: the reading call brings another PathSep or none ---
+	// A name written in the text was split into its segments when the text was
+	// parsed (Merge / NewFrom, with the separator given there); what the setting
+	// yields does not depend on the separator of the call that reads it. Judged
+	// for literal names in every form (lone reference, text, the three
+	// operators); for a COMPUTED name (${${nm}}) the statement does not say whose
+	// options split it: observed only.
+	other := "/"
+	if c.sep == "/" {
+		other = "."
+	}
+	res.SetAdd("lookup_created_with_pathsep", c.sep)
+	for _, alt := range []struct {
+		n    string
+		opts []ucfg.Option
+	}{
+		{"no-pathsep", []ucfg.Option{ucfg.VarExp}},
+		{"pathsep-" + other, []ucfg.Option{ucfg.VarExp, ucfg.PathSep(other)}},
+		{"no-options-but-the-layers", nil},
+	} {
+		ro := append(append([]ucfg.Option{}, alt.opts...), opts[len(base):]...)
+		var s string
+		var v interface{}
+		var rerr, uerr error
+		if p, pv, where := harness.Safe(func() {
+			s, rerr = cfg.String("t", -1, ro...)
+			v, uerr = vx.ReadField(cfg, "t", nil, ro)
+		}); p {
+			res.Violate("panic", "panic %q at %s reading t with %s; %s", pv, where, alt.n, desc)
+			return
+		}
+		res.Eval(2)
+		if c.op == "computed" {
+			// monitor only
 			same := (rerr != nil) == (reads[0].err != nil) && (rerr != nil || s == reads[0].val)
-			kind := "literal-name"
-			if c.op == "computed" {
-				kind = "computed-name"
-			}
-			res.SetAdd("read_with_other_pathsep_than_creation", fmt.Sprintf("%s/%s/same-outcome=%v", kind, alt.n, same))
+			res.SetAdd("read_with_other_pathsep_than_creation", fmt.Sprintf("computed-name/%s/same-outcome=%v", alt.n, same))
 			if !same {
-				res.Ev("read_with_other_pathsep_than_creation_differs:"+kind, 1)
+				res.Ev("read_with_other_pathsep_than_creation_differs:computed-name", 1)
+			}
+			continue
+		}
+		res.Ev("lookup_reads_with_another_pathsep_than_creation_judged", 2)
+		res.SetAdd("lookup_read_with_other_pathsep", fmt.Sprintf("created-%s/read-%s/%s/defined=%v", c.sep, alt.n, c.op, found != nil))
+		for _, rd := range []reading{{"String() " + alt.n, s, rerr}, {"Unpack(interface{}) " + alt.n, v, uerr}} {
+			bad := ""
+			switch {
+			case wantErr && rd.err == nil:
+				bad = fmt.Sprintf("returned %#v without error, no layer holds %q", rd.val, c.name)
+			case wantErr:
+			case rd.err != nil:
+				bad = fmt.Sprintf("failed with %v, the statement yields %q", rd.err, want)
+			case fmt.Sprint(rd.val) != want:
+				bad = fmt.Sprintf("= %#v, the statement yields %q", rd.val, want)
+			}
+			if bad != "" {
+				// the same read with the separator of creation agreed with the
+				// statement (above): the deviation is the reading call's separator
+				res.Violate("name-of-a-reference-split-at-the-separator-of-the-reading-call:"+c.op, "%s of \"t\" %s (read with the options of creation: %#v, %v); %s", rd.how, bad, reads[0].val, reads[0].err, desc)
+				return
 			}
 		}
 	}
